@@ -17,10 +17,10 @@ func init() { Scenarios["C06"] = scenarioC06 }
 const c06Version = "v2.0.0"
 
 type c06input struct {
-	Class  string // VALID, INVALID, AMBIGUOUS
-	Kind   string
-	Bytes  []byte
-	Tail   []byte // bytes following the handshake (VALID only): must reach the next layer intact
+	Class string // VALID, INVALID, AMBIGUOUS
+	Kind  string
+	Bytes []byte
+	Tail  []byte // bytes following the handshake (VALID only): must reach the next layer intact
 }
 
 // ---- generators (server role: the bytes a client sends)
